@@ -344,3 +344,7 @@ func vfJSONCopy(src, dst any) {
 		panic(err)
 	}
 }
+
+func vfReseedCPRNG(label string) {
+	common.VerifSeedCPRNG(sha256.Sum256([]byte("cprng:" + label)))
+}
